@@ -139,6 +139,11 @@ class Prop:
             a = rand_array(rng, ndim=nd, minlen=1, maxlen=3, kinds=('i', 'f'), attrs=True, dtype='f')
             a['attrs'] = {'units': 'K', 'scale': 2.5}
             a['axattrs'] = [{'long_name': 'axis %d' % j, 'count': j + 1} for j in range(nd)]
+            if rng.random() < 0.35:
+                # values of any type: None and the falsy ones are the values a careless `if v:` / `is not None` loses
+                a['attrs'] = {'units': 'K', 'valid_max': None, 'zero': 0, 'empty': '', 'flags': [], 'off': False}
+                a['axattrs'] = [dict(m, bounds=None, offset=0) for m in a['axattrs']]
+                stats['odd_metadata_values']['yes'] += 1
             dims = a['dims']; i = rng.randrange(nd); d = dims[i]; labs = a['labels'][i]
             name = rng.choice(Prop.KEEP + Prop.DROP)
             stats['propagation_op'][name] += 1
